@@ -38,6 +38,9 @@ def mark {α} (o : Option α) : Option Int := o.map (fun _ => 1)
 /-- a list of objects as a list of markers (only its length is read) -/
 def markers {α} (l : List α) : List Int := l.map (fun _ => 0)
 
+/-- `self.target = None`: the value the regenerated statement stores -/
+def tgtOfNone : Unit → Tgt := fun _ => .none
+
 def isRemote : Tgt → Bool
   | .remote _ => true
   | _ => false
@@ -66,7 +69,7 @@ def tagOracle2 (k : Int) : Int → Int → Py (Option Int) := fun _ _ => .ok (so
 /-- the nested function the regenerated dispatch chain of `sense()` calls: 4 `sense_dep`, 1 `sense_tta`,
 2 `sense_ttb`, 3 `sense_ttf` -/
 def senseChoice (t : RT) : Py (Option Int) :=
-  Gen.Fn.clf_sense_dispatch 0 t.atr t.isA t.isB t.isF (tagOracle 4) (tagOracle 1) (tagOracle 2) (tagOracle 3)
+  Gen.Fn.clf_sense_dispatch 0 t.atr t.brty (tagOracle 4) (tagOracle 1) (tagOracle 2) (tagOracle 3)
 
 def senseDepGen (atr : Bytes) (s : St) : R (Option (Nat × Found)) :=
   match Gen.Fn.clf_dep_checks atr with
@@ -137,7 +140,7 @@ def senseGen (device : Option Int) (tl : List (Option RT)) (iters : Int) (s : St
     match Gen.Fn.clf_sense_nodev device with
     | .error e => (.error e, s)
     | .ok _ =>
-      match simpleCall .mute { s with target := .none } with
+      match simpleCall .mute { s with target := tgtOfNone Gen.Fn.clf_sense_forget } with
       | (.error e, s1) => (.error e, s1)
       | (.ok _, s1) => senseItersGen (tl.filterMap id) iters (Gen.Fn.clf_sense_iters iters) s1
 
@@ -152,7 +155,7 @@ def listenGen (device : Option Int) (atrRes : Option Bytes) (brty : String) (s :
   match Gen.Fn.clf_listen_nodev device with
   | .error e => (.error e, s)
   | .ok _ =>
-    match simpleCall .mute { s with target := .none } with
+    match simpleCall .mute { s with target := tgtOfNone Gen.Fn.clf_listen_forget } with
     | (.error e, s1) => (.error e, s1)
     | (.ok _, s1) =>
       match listenChoice atrRes brty with
